@@ -98,11 +98,20 @@ def replay(pl):
                 if d:
                     return {'confirmed': True, 'detail': d}
         return {'confirmed': False, 'detail': 'real dna_to_hp satisfies every clause on the model and on 300 ranges x 80 genes'}
-    if ob.startswith('dna_to_hp'):
+    if ob.startswith('dna_to_hp') or ob.startswith('frame'):
         from jesse.helpers import dna_to_hp
-        decl = [{'name': 'p0', 'type': float, 'min': 0.5, 'max': 7.25}, {'name': 'p1', 'type': int, 'min': -3, 'max': 40},
-                {'name': 'p2', 'type': float, 'min': -1, 'max': 1}]
-        for _ in range(2000):
+        decls = [
+            [{'name': 'p0', 'type': float, 'min': 0.5, 'max': 7.25}, {'name': 'p1', 'type': int, 'min': -3, 'max': 40},
+             {'name': 'p2', 'type': float, 'min': -1, 'max': 1}],
+            # the same names declared with other ranges (another strategy decoded earlier in the same process)
+            [{'name': 'p0', 'type': float, 'min': 100.0, 'max': 200.0}, {'name': 'p1', 'type': int, 'min': 50, 'max': 90},
+             {'name': 'p2', 'type': float, 'min': 10, 'max': 11}],
+            # a parameter pinned to one value (min == max) in a non-last position
+            [{'name': 'p0', 'type': float, 'min': 0.5, 'max': 7.25}, {'name': 'p1', 'type': int, 'min': 20, 'max': 20},
+             {'name': 'p2', 'type': float, 'min': -1, 'max': 1}],
+        ]
+        for it in range(2000):
+            decl = decls[it % len(decls)]
             genes = [rng.randint(K.FIRST, K.LAST) for _ in range(3)]
             try:
                 got = dna_to_hp(decl, ''.join(chr(g) for g in genes))
@@ -111,7 +120,8 @@ def replay(pl):
             for k in range(3):
                 w = K.decode(decl[k], genes[k])
                 if f'p{k}' not in got or abs(got[f'p{k}'] - w) > 1e-9:
-                    return {'confirmed': True, 'detail': f'genes {genes}: hp[p{k}] = {got.get(f"p{k}")!r}, decode of its own gene is {w!r}'}
+                    return {'confirmed': True, 'detail': f'declaration {decl[k]}, genes {genes} (after other declarations were decoded in the '
+                                                         f'same process): hp[p{k}] = {got.get(f"p{k}")!r}, decode of its own gene is {w!r}'}
         try:
             dna_to_hp([{'name': 's', 'type': str, 'min': 0, 'max': 1}], '5')
             return {'confirmed': True, 'detail': 'a str-typed declaration is not rejected'}
